@@ -116,7 +116,8 @@ Qed.
 
 End Generic.
 
-(* ---- the concrete payload: agreement on everything but the readings ---- *)
+(* ---- the concrete payload: any reflexive relation that implies agreement on the values, clean
+   values and tag (the readings are then free to differ in whatever way the relation allows) ---- *)
 Section Concrete.
 Context (NO : NumOps).
 Notation payload := (payload NO).
@@ -124,74 +125,91 @@ Notation cd := (cd payload).
 
 Definition same_data (a b : payload) : Prop :=
   cur NO a = cur NO b /\ clean NO a = clean NO b /\ tagged NO a = tagged NO b.
-Notation DL := (RL payload same_data).
-Notation DR := (RR payload same_data).
 
 Lemma same_data_refl a : same_data a a.
 Proof. repeat split. Qed.
-Lemma DL_refl (l : list cd) : DL l l.
-Proof. induction l; constructor; [split; [reflexivity|apply same_data_refl]|assumption]. Qed.
-
 Lemma recovered_same a b : same_data a b -> recovered NO a = recovered NO b.
 Proof. intros (A & B & C). unfold recovered. rewrite A, B. reflexivity. Qed.
 
-Lemma merge_same a a' b b' : same_data a a' -> same_data b b' -> same_data (merge NO a b) (merge NO a' b').
-Proof.
-  intros Ha (Hb & _). unfold merge. rewrite (recovered_same _ _ Ha), Hb. apply same_data_refl.
-Qed.
-Lemma fillp_same a a' : same_data a a' -> same_data (fillp NO a) (fillp NO a').
-Proof. intros Ha. unfold fillp. rewrite (recovered_same _ _ Ha). apply same_data_refl. Qed.
+Section Rel.
+Variable RP : payload -> payload -> Prop.
+Hypothesis RP_data : forall a b, RP a b -> same_data a b.
+Hypothesis RP_refl : forall a, RP a a.
+Notation QL := (RL payload RP).
+Notation QR := (RR payload RP).
 
-Lemma last_tagged_same : forall (l l' : list cd) i, DL l l' -> last_tagged NO l i = last_tagged NO l' i.
+Lemma QL_refl (l : list cd) : QL l l.
+Proof. induction l; constructor; [split; [reflexivity|apply RP_refl]|assumption]. Qed.
+
+Lemma merge_rel_gen a a' b b' : RP a a' -> RP b b' -> RP (merge NO a b) (merge NO a' b').
 Proof.
-  intros l l' i H; revert i. induction H as [|c c' l l' [_ (_ & _ & Hc)] H IH]; intros i; cbn [last_tagged]; [reflexivity|].
-  rewrite IH, Hc. reflexivity.
+  intros Ha Hb. apply RP_data in Ha. apply RP_data in Hb. destruct Hb as (Hb & _).
+  unfold merge. rewrite (recovered_same _ _ Ha), Hb. apply RP_refl.
 Qed.
-Lemma find_conv_index_same (l l' : list cd) : DL l l' -> find_conv_index NO l = find_conv_index NO l'.
+Lemma fillp_rel_gen a a' : RP a a' -> RP (fillp NO a) (fillp NO a').
+Proof. intros Ha. apply RP_data in Ha. unfold fillp. rewrite (recovered_same _ _ Ha). apply RP_refl. Qed.
+
+Lemma last_tagged_rel : forall (l l' : list cd) i, QL l l' -> last_tagged NO l i = last_tagged NO l' i.
 Proof.
-  intros H. unfold find_conv_index. pose proof (last_tagged_same l l' 0%nat H) as HL.
-  destruct H as [|c c' l l' [_ (_ & _ & Hc)] H]; [reflexivity|]. rewrite Hc, HL. reflexivity.
+  intros l l' i H; revert i. induction H as [|c c' l l' [_ Hc] H IH]; intros i; cbn [last_tagged]; [reflexivity|].
+  apply RP_data in Hc. destruct Hc as (_ & _ & Hc). rewrite IH, Hc. reflexivity.
+Qed.
+Lemma find_conv_index_rel (l l' : list cd) : QL l l' -> find_conv_index NO l = find_conv_index NO l'.
+Proof.
+  intros H. unfold find_conv_index. pose proof (last_tagged_rel l l' 0%nat H) as HL.
+  destruct H as [|c c' l l' [_ Hc] H]; [reflexivity|]. apply RP_data in Hc. destruct Hc as (_ & _ & Hc). rewrite Hc, HL. reflexivity.
 Qed.
 
-Lemma convert_from_same : forall (todo todo' done done' : list cd), DL todo todo' -> DL done done' ->
-  DL (convert_from NO done todo) (convert_from NO done' todo').
+Lemma convert_from_rel : forall (todo todo' done done' : list cd), QL todo todo' -> QL done done' ->
+  QL (convert_from NO done todo) (convert_from NO done' todo').
 Proof.
   intros todo todo' done done' H; revert done done'.
-  induction H as [|c c' l l' [Ht (Hc & _)] H IH]; intros done done' Hd; cbn [convert_from].
+  induction H as [|c c' l l' [Ht Hc] H IH]; intros done done' Hd; cbn [convert_from].
   - apply RL_rev. exact Hd.
   - apply IH. constructor; [|exact Hd]. split; cbn [t p]; [exact Ht|].
-    unfold convert_one, same_data. cbn [cur clean tagged]. rewrite Hc.
+    apply RP_data in Hc. destruct Hc as (Hc & _).
     assert (E : option_map (cur NO) match done with [] => None | d :: _ => Some (p d) end =
                 option_map (cur NO) match done' with [] => None | d :: _ => Some (p d) end).
-    { destruct Hd as [|d d' ? ? [_ (Hdc & _)] _]; cbn [option_map]; congruence. }
-    rewrite E. repeat split.
+    { destruct Hd as [|d d' ? ? [_ Hdd] _]; cbn [option_map]; [reflexivity|]. apply RP_data in Hdd. destruct Hdd as (Hdc & _). congruence. }
+    unfold convert_one. rewrite Hc, E. apply RP_refl.
 Qed.
 
-Lemma DL_firstn k : forall (l l' : list cd), DL l l' -> DL (firstn k l) (firstn k l').
+Lemma QL_firstn k : forall (l l' : list cd), QL l l' -> QL (firstn k l) (firstn k l').
 Proof. induction k as [|k IH]; intros l l' H; cbn [firstn]; [constructor|]. destruct H; [constructor|constructor; [assumption|apply IH; assumption]]. Qed.
-Lemma DL_skipn k : forall (l l' : list cd), DL l l' -> DL (skipn k l) (skipn k l').
+Lemma QL_skipn k : forall (l l' : list cd), QL l l' -> QL (skipn k l) (skipn k l').
 Proof. induction k as [|k IH]; intros l l' H; cbn [skipn]; [exact H|]. destruct H; [constructor|apply IH; assumption]. Qed.
 
-Lemma convert_same (l l' : list cd) : DL l l' -> DL (convert NO l) (convert NO l').
+Lemma convert_rel (l l' : list cd) : QL l l' -> QL (convert NO l) (convert NO l').
 Proof.
-  intros H. unfold convert. rewrite <- (find_conv_index_same l l' H).
-  apply convert_from_same; [apply DL_skipn; exact H|apply RL_rev, DL_firstn; exact H].
+  intros H. unfold convert. rewrite <- (find_conv_index_rel l l' H).
+  apply convert_from_rel; [apply QL_skipn; exact H|apply RL_rev, QL_firstn; exact H].
 Qed.
 
 (* the whole _tasks pipeline, and append *)
-Theorem tasks_same cfg (l l' : list cd) : DL l l' -> DR (tasks NO cfg l) (tasks NO cfg l').
+Theorem tasks_rel cfg (l l' : list cd) : QL l l' -> QR (tasks NO cfg l) (tasks NO cfg l').
 Proof.
   intros H. unfold tasks.
-  pose proof (collapse_candles_rel payload (merge NO) (fillp NO) same_data merge_same fillp_same (tf cfg) (fillon cfg) l l' H) as HC.
+  pose proof (collapse_candles_rel payload (merge NO) (fillp NO) RP merge_rel_gen fillp_rel_gen (tf cfg) (fillon cfg) l l' H) as HC.
   destruct (collapse_candles payload (merge NO) (fillp NO) (tf cfg) (fillon cfg) l) as [r|e],
            (collapse_candles payload (merge NO) (fillp NO) (tf cfg) (fillon cfg) l') as [r'|e']; cbn [RR bind] in *; try contradiction; [|exact HC].
-  apply trim_rel. destruct (ha cfg); [apply convert_same; exact HC|exact HC].
+  apply trim_rel. destruct (ha cfg); [apply convert_rel; exact HC|exact HC].
 Qed.
 
-Theorem mgr_append_same cfg (st st' new : list cd) : DL st st' -> DR (mgr_append NO cfg st new) (mgr_append NO cfg st' new).
+Theorem mgr_append_rel cfg (st st' new : list cd) : QL st st' -> QR (mgr_append NO cfg st new) (mgr_append NO cfg st' new).
 Proof.
   intros H. unfold mgr_append. destruct new as [|n new]; [exact H|].
-  apply tasks_same. apply Forall2_app; [exact H|apply DL_refl].
+  apply tasks_rel. apply Forall2_app; [exact H|apply QL_refl].
 Qed.
+End Rel.
+
+(* the instance used for the candles themselves: agreement on everything but the readings *)
+Notation DL := (RL payload same_data).
+Notation DR := (RR payload same_data).
+Lemma DL_refl (l : list cd) : DL l l.
+Proof. apply QL_refl. exact same_data_refl. Qed.
+Theorem tasks_same cfg (l l' : list cd) : DL l l' -> DR (tasks NO cfg l) (tasks NO cfg l').
+Proof. apply tasks_rel; [auto|exact same_data_refl]. Qed.
+Theorem mgr_append_same cfg (st st' new : list cd) : DL st st' -> DR (mgr_append NO cfg st new) (mgr_append NO cfg st' new).
+Proof. apply mgr_append_rel; [auto|exact same_data_refl]. Qed.
 
 End Concrete.
